@@ -103,15 +103,43 @@ def s_try_into_usize(ex, callee, args, dest_ty):
     return Enum("Ok", [IntV(e)], "Result")
 
 
+def concretise_if_unique(ex, e):
+    """replace a term by its value when the path condition forces a single value (keeps multiplications linear)"""
+    e = z3.simplify(e)
+    if z3.is_bv_value(e):
+        return e
+    ctx = ex.ctx
+    ctx.stats["queries"] += 1
+    if ctx.solver.check(*ctx.pc) != z3.sat:
+        return e
+    v = ctx.solver.model().eval(e, model_completion=True)
+    ctx.stats["queries"] += 1
+    if ctx.solver.check(*(ctx.pc + [e != v])) == z3.unsat:
+        return v
+    return e
+
+
 def s_checked(op):
     def h(ex, callee, args, dest_ty):
         a, b = args[0].e, args[1].e
+        if op == "mul":
+            a = concretise_if_unique(ex, a)
+            b = concretise_if_unique(ex, b)
         if op == "add":
             no_ov = z3.BVAddNoOverflow(a, b, False)
             r = a + b
         elif op == "mul":
-            no_ov = z3.BVMulNoOverflow(a, b, False)
-            r = a * b
+            ca, cb = z3.is_bv_value(a), z3.is_bv_value(b)
+            if ca or cb:
+                c, o = (a, b) if ca else (b, a)
+                cv = c.as_long()
+                w = c.size()
+                # x*c fits in w bits iff x <= (2^w - 1) / c  (c != 0); exact, and linear for the solver
+                no_ov = z3.BoolVal(True) if cv == 0 else z3.ULE(o, bv(((1 << w) - 1) // cv, w))
+                r = o * c
+            else:
+                no_ov = z3.BVMulNoOverflow(a, b, False)
+                r = a * b
         else:
             no_ov = z3.BVSubNoUnderflow(a, b, False)
             r = a - b
@@ -414,10 +442,11 @@ def s_parse_tail(ex, callee, args, dest_ty):
             continue
         vals[fname] = IntV(F(f"ehdr.{fname}@{'32' if ci == 0 else '64'}", BV64, z3.BitVecSort(w))(fp))
     ex.ctx.event("parse_tail", fp, sl.len)
-    return Enum("Ok", [Agg([ident.f[1], ident.f[0], vals["version"], ident.f[2], ident.f[3], vals["e_type"], vals["e_machine"],
+    hdr = Agg([ident.f[1], ident.f[0], vals["version"], ident.f[2], ident.f[3], vals["e_type"], vals["e_machine"],
                             vals["e_entry"], vals["e_phoff"], vals["e_shoff"], vals["e_flags"], vals["e_ehsize"],
-                            vals["e_phentsize"], vals["e_phnum"], vals["e_shentsize"], vals["e_shnum"], vals["e_shstrndx"]],
-                           "FileHeader")], "Result")
+                vals["e_phentsize"], vals["e_phnum"], vals["e_shentsize"], vals["e_shnum"], vals["e_shstrndx"]], "FileHeader")
+    ex.ctx.env["last_ehdr"] = hdr
+    return Enum("Ok", [hdr], "Result")
 
 
 class Collected:
